@@ -610,10 +610,16 @@ def startsLower : Str → Bool
   | c :: _ => isLower c
   | [] => false
 
-/-- the parentheses of `render_type_atom`: around an intersection or a function type -/
+/-- `matches!(name.as_str(), "int" | "bin" | "ref")` -/
+def isPrimName (n : Str) : Bool :=
+  n = ['i', 'n', 't'] || n = ['b', 'i', 'n'] || n = ['r', 'e', 'f']
+
+/-- the parentheses of `render_type_atom`: around an intersection or a function type, and around the
+    `<'int>` reference form (not accepted bare as a function input/output) -/
 def atomWrap (t : Ty) (s : Str) : Str :=
   match t with
   | .inter _ | .func _ _ => '(' :: s ++ [')']
+  | .ident n [] => if isPrimName n then '(' :: s ++ [')'] else s
   | _ => s
 
 /-- the parentheses of `render_union_member`: around a function type -/
@@ -625,10 +631,6 @@ def memberWrap (t : Ty) (s : Str) : Str :=
 /-- `<a, b>` for a non-empty list of rendered arguments, otherwise empty -/
 def angle (xs : List Str) : Str :=
   if xs.isEmpty then [] else '<' :: sepBy [',', ' '] xs ++ ['>']
-
-/-- `matches!(name.as_str(), "int" | "bin" | "ref")` -/
-def isPrimName (n : Str) : Bool :=
-  n = ['i', 'n', 't'] || n = ['b', 'i', 'n'] || n = ['r', 'e', 'f']
 
 mutual
 /-- `render_type` -/
